@@ -883,7 +883,7 @@ func (c *Conn) dispatch(fr *FrameHeader) bool {
 
 	err := c.readStream(fr, r)
 	if err == nil {
-		if fr.Flags().Has(FlagEndStream) {
+		if responseEnded(fr, r) {
 			c.finishHeld(r, fr.Stream(), nil)
 		}
 	} else {
@@ -895,6 +895,23 @@ func (c *Conn) dispatch(fr *FrameHeader) bool {
 	}
 
 	return c.goAwayDone()
+}
+
+// responseEnded reports whether fr is the last frame of the response. END_STREAM
+// says so on a DATA frame. On a HEADERS frame it only does once the header
+// block that frame opens is complete: the block may go on in CONTINUATION
+// frames, and finishing the request at the HEADERS frame handed the caller a
+// response without those fields and left them undecoded. On any other frame
+// the bit has no meaning and is ignored (RFC 7540 4.1).
+func responseEnded(fr *FrameHeader, r *Ctx) bool {
+	switch fr.Type() {
+	case FrameData:
+		return fr.Flags().Has(FlagEndStream)
+	case FrameHeaders, FrameContinuation:
+		return r.hdrEndStream && fr.Flags().Has(FlagEndHeaders)
+	}
+
+	return false
 }
 
 // goAwayDone reports whether the server has said GOAWAY and every request it
@@ -1600,6 +1617,7 @@ func (c *Conn) readHeader(fr *FrameHeader, r *Ctx) error {
 		r.hdrFields = 0
 		r.hdrRegular = false
 		r.hdrStatus = 0
+		r.hdrEndStream = fr.Flags().Has(FlagEndStream)
 	}
 
 	// A size update may come before the first field of the block, whichever
